@@ -132,6 +132,10 @@ MODEL_GRID = [
     ("joint", 3, 1, None),
     ("logistic", 2, 1, "bernoulli"),
     ("mixture_logistic", 3, 2, None),
+    # corner kinds: shared speed without sources, univariate linear, joint model with two competing events
+    ("shared_speed_logistic", 2, 0, None),
+    ("linear", 1, 0, "gaussian-scalar"),
+    ("joint", 2, 1, "events2"),
 ]
 
 
